@@ -1,4 +1,184 @@
-From Coq Require Import ZArith List Bool.
-From CTM Require Import Model.Election.
-Theorem c07_placeholder : True. Proof. exact I. Qed.
-Print Assumptions c07_placeholder.
+(* C07 — the mapping of a cell is invariant to the scale of its raw counts, to whether the
+   input is given raw or already normalised (declared log2CPM), to the order of the gene
+   columns and (normalised input) to genes that are not markers; raw input with a negative
+   value is rejected.
+   Property theorems only: each is closed by `exact <lemma>` (Proofs/NormalizeP.v).
+
+   prepare_query R lg genes input lists  (Model/Normalize.v) is everything the election sees of
+   the query: one matrix per parent node, columns = that parent's markers in REFERENCE order.
+   The bootstrap subsets index these columns, and the reference side does not depend on the
+   query at all; so equality of prepare_query is equality of every vote, for every bootstrap
+   factor and every random stream (C02's tally is a function of these matrices).
+
+   R, lg : the type of normalised values and v |-> log2(1 + v).  Nothing is assumed about lg
+   except, where stated, that it depends only on the VALUE of the fraction it is given
+   (hypothesis written out in each theorem that needs it). *)
+From Coq Require Import ZArith List Bool Permutation.
+From CTM Require Import Base.Sx Base.SortX Model.Normalize Proofs.NormalizeP.
+Import ListNotations.
+Open Scope Z_scope.
+
+(* (1) scale: for every k > 0 the CPM of k*row equals the CPM of row entry-wise AS FRACTIONS
+   (including the all-zero row, whose denominator is 1), hence the normalised rows are equal,
+   hence, with an arbitrary positive factor per cell, the prepared query is equal *)
+Theorem c07_scale_invariant :
+  forall (R : Type) (lg : frac -> R),
+  (forall a b, 0 < snd a -> 0 < snd b -> feq a b -> lg a = lg b) ->
+  (forall k row, 0 < k -> Forall (fun x => 0 <= x) row ->
+     Forall2 feq (cpm_row (map (Z.mul k) row)) (cpm_row row) /\
+     log2cpm_row R lg (map (Z.mul k) row) = log2cpm_row R lg row) /\
+  (forall ks genes d lists, Forall (fun k => 0 < k) ks -> length ks = length d ->
+     prepare_query R lg genes (DeclRaw (scale_rows ks d)) lists = prepare_query R lg genes (DeclRaw d) lists).
+Proof. exact scale_invariant_full. Qed.
+Print Assumptions c07_scale_invariant.
+
+(* the same for a rational factor b/a: two integer rows with a*x = b*y entry-wise *)
+Theorem c07_scale_invariant_rational :
+  forall (R : Type) (lg : frac -> R),
+  (forall a b, 0 < snd a -> 0 < snd b -> feq a b -> lg a = lg b) ->
+  forall a b r1 r2, 0 < a -> 0 < b -> Forall (fun x => 0 <= x) r1 ->
+    Forall2 (fun x y => a * x = b * y) r1 r2 ->
+    Forall2 feq (cpm_row r1) (cpm_row r2) /\ log2cpm_row R lg r1 = log2cpm_row R lg r2.
+Proof. exact scale_invariant_rational. Qed.
+Print Assumptions c07_scale_invariant_rational.
+
+(* (2) raw input mapped = its log2CPM matrix declared normalised (for EVERY lg, every gene set,
+   every marker table; error cases included): normalisation happens on the full gene set,
+   before any column is selected *)
+Theorem c07_raw_equals_declared_normalised :
+  forall (R : Type) (lg : frac -> R) genes d lists,
+  has_negative d = false ->
+  prepare_query R lg genes (DeclRaw d) lists =
+  prepare_query R lg genes (DeclNorm (map (log2cpm_row R lg) d)) lists.
+Proof. exact raw_equals_declared. Qed.
+Print Assumptions c07_raw_equals_declared_normalised.
+
+(* (3) gene order: for every permutation p of the columns, applied to the names and to every
+   row, the prepared query is unchanged — raw and declared-normalised input *)
+Theorem c07_gene_permutation :
+  forall (R : Type) (lg : frac -> R) p genes lists,
+  NoDup genes -> Permutation p (seq 0 (length genes)) ->
+  (forall d : list (list Z), Forall (fun r => length r = length genes) d ->
+     prepare_query R lg (permute p genes) (DeclRaw (map (permute p) d)) lists =
+     prepare_query R lg genes (DeclRaw d) lists) /\
+  (forall d : list (list R), Forall (fun r => length r = length genes) d ->
+     prepare_query R lg (permute p genes) (DeclNorm (map (permute p) d)) lists =
+     prepare_query R lg genes (DeclNorm d) lists).
+Proof. exact gene_permutation_both. Qed.
+Print Assumptions c07_gene_permutation.
+
+(* (4) declared-normalised input: removing (read right to left: adding) any genes that are
+   not in a marker list changes nothing ... *)
+Theorem c07_extra_genes_irrelevant :
+  forall (R : Type) (lg : frac -> R) (keep : Z -> bool) genes (d : list (list R)) lists,
+  NoDup genes -> Forall (fun r => length r = length genes) d ->
+  (forall g, In g (concat lists) -> keep g = true) ->
+  prepare_query R lg (filter keep genes) (DeclNorm (map (drop_cols keep genes) d)) lists =
+  prepare_query R lg genes (DeclNorm d) lists.
+Proof. exact extra_genes_irrelevant. Qed.
+Print Assumptions c07_extra_genes_irrelevant.
+
+(* ... more generally two declared-normalised inputs (any gene sets, any column orders) that
+   give every marker the same value BY NAME in every cell are prepared identically *)
+Theorem c07_only_marker_values_by_name_matter :
+  forall (R : Type) (lg : frac -> R) genes genes' (d d' : list (list R)) lists,
+  NoDup genes -> NoDup genes' ->
+  Forall (fun r => length r = length genes) d -> Forall (fun r => length r = length genes') d' ->
+  (forall g, In g (concat lists) -> (In g genes <-> In g genes')) ->
+  Forall2 (fun row row' => forall g, In g (concat lists) ->
+             zassoc g (combine genes row) = zassoc g (combine genes' row')) d d' ->
+  prepare_query R lg genes (DeclNorm d) lists = prepare_query R lg genes' (DeclNorm d') lists.
+Proof. exact prepare_agree_assoc. Qed.
+Print Assumptions c07_only_marker_values_by_name_matter.
+
+(* (5) raw input with a negative value is never mapped; the error is the negative-value error
+   whenever the marker table itself is usable *)
+Theorem c07_negative_raw_rejected :
+  forall (R : Type) (lg : frac -> R) genes d lists,
+  has_negative d = true ->
+  (forall r, prepare_query R lg genes (DeclRaw d) lists <> Ok r) /\
+  (forall am, marker_cache genes lists = Ok am -> prepare_query R lg genes (DeclRaw d) lists = Err ENegative).
+Proof. exact negative_raw_both. Qed.
+Print Assumptions c07_negative_raw_rejected.
+
+(* (6) the guard: whatever downsample_genes returns cannot be normalised any more *)
+Theorem c07_normalise_after_downsample_rejected :
+  forall (R : Type) (lg : frac -> R) (m m' : cbg Z) sel,
+  downsample_genes m sel = Ok m' ->
+  to_log2cpm R lg m' = Err (match c_norm m with Raw => EDownsampled | Log2CPM => ENotRaw end).
+Proof. exact normalise_after_downsample_rejected. Qed.
+Print Assumptions c07_normalise_after_downsample_rejected.
+
+(* ---------------- non-vacuity ---------------- *)
+
+(* the assumption made about lg is satisfiable by a function that separates all values:
+   the fraction in lowest terms (the instance the extracted model uses) *)
+Example c07_lg_assumption_satisfiable :
+  (forall a b, 0 < snd a -> 0 < snd b -> feq a b -> fnorm a = fnorm b) /\
+  (forall a b, 0 < snd a -> 0 < snd b -> fnorm a = fnorm b -> feq a b).
+Proof. split; [exact fnorm_ext | exact fnorm_injective]. Qed.
+
+(* why negative values must be rejected before normalising: with a non-positive row sum the
+   denominator is 1 and scale invariance is lost (the hypothesis 0 <= x of (1) is needed) *)
+Example c07_scale_needs_nonnegative_counts :
+  ~ Forall2 feq (cpm_row (map (Z.mul 2) [1; -1])) (cpm_row [1; -1]).
+Proof. vm_compute. intros H. inversion H; subst. discriminate. Qed.
+
+(* why the guard matters: normalising AFTER down-selecting to genes 1,2 would give CPM
+   500000 where normalising on the full gene set gives 250000; the model (like the code)
+   refuses the first order *)
+Example c07_downsample_then_normalise_differs :
+  let genes := [1; 2; 3] in let row := [1; 1; 2] in let sel := [1; 2] in
+  bind (bind (make_cbg genes [row] Raw) (to_log2cpm frac fnorm)) (fun m => downsample_genes m sel)
+    = Ok (mk_cbg sel [[(250000, 1); (250000, 1)]] Log2CPM true) /\
+  bind (make_cbg sel [[1; 1]] Raw) (to_log2cpm frac fnorm)
+    = Ok (mk_cbg sel [[(500000, 1); (500000, 1)]] Log2CPM false) /\
+  ~ feq (250000, 1) (500000, 1) /\
+  bind (bind (make_cbg genes [row] Raw) (fun m => downsample_genes m sel)) (to_log2cpm frac fnorm)
+    = Err EDownsampled.
+Proof. vm_compute. repeat split; try reflexivity. discriminate. Qed.
+
+(* scale, including an all-zero cell; factors 3 and 5 *)
+Example c07_example_scale :
+  Forall (fun k => 0 < k) [3; 5] /\
+  scale_rows [3; 5] [[2; 4; 2]; [0; 0; 0]] = [[6; 12; 6]; [0; 0; 0]] /\
+  prepare_query frac fnorm [10; 20; 30] (DeclRaw [[6; 12; 6]; [0; 0; 0]]) [[30; 10]; [20]] =
+    Ok [[[(250000, 1); (250000, 1)]; [(0, 1); (0, 1)]]; [[(500000, 1)]; [(0, 1)]]] /\
+  prepare_query frac fnorm [10; 20; 30] (DeclRaw [[2; 4; 2]; [0; 0; 0]]) [[30; 10]; [20]] =
+    Ok [[[(250000, 1); (250000, 1)]; [(0, 1); (0, 1)]]; [[(500000, 1)]; [(0, 1)]]].
+Proof. vm_compute. repeat split; try reflexivity. repeat constructor. Qed.
+
+(* permutation p = (2 0 1); the hypotheses hold and both sides are the same successful result *)
+Example c07_example_permutation :
+  Permutation [2; 0; 1]%nat (seq 0 (length [10; 20; 30])) /\ NoDup [10; 20; 30] /\
+  permute [2; 0; 1]%nat [10; 20; 30] = [30; 10; 20] /\
+  prepare_query frac fnorm [30; 10; 20] (DeclRaw [permute [2; 0; 1]%nat [1; 1; 2]]) [[30; 10]; [20]] =
+    Ok [[[(500000, 1); (250000, 1)]]; [[(250000, 1)]]] /\
+  prepare_query frac fnorm [10; 20; 30] (DeclRaw [[1; 1; 2]]) [[30; 10]; [20]] =
+    Ok [[[(500000, 1); (250000, 1)]]; [[(250000, 1)]]].
+Proof.
+  split; [|split].
+  - simpl. apply perm_trans with [0; 2; 1]%nat; [apply perm_swap | apply perm_skip; apply perm_swap].
+  - repeat constructor; simpl; intuition discriminate.
+  - vm_compute. repeat split; reflexivity.
+Qed.
+
+(* extra genes 100 and 200 (not markers), declared-normalised values *)
+Example c07_example_extra_genes :
+  let keep := fun g => g <? 100 in
+  filter keep [100; 10; 20; 200; 30] = [10; 20; 30] /\
+  drop_cols keep [100; 10; 20; 200; 30] [(9, 1); (1, 2); (3, 4); (7, 1); (5, 8)] = [(1, 2); (3, 4); (5, 8)] /\
+  prepare_query frac fnorm [100; 10; 20; 200; 30] (DeclNorm [[(9, 1); (1, 2); (3, 4); (7, 1); (5, 8)]]) [[30; 10]; [20]] =
+    Ok [[[(5, 8); (1, 2)]]; [[(3, 4)]]] /\
+  prepare_query frac fnorm [10; 20; 30] (DeclNorm [[(1, 2); (3, 4); (5, 8)]]) [[30; 10]; [20]] =
+    Ok [[[(5, 8); (1, 2)]]; [[(3, 4)]]].
+Proof. vm_compute. repeat split; reflexivity. Qed.
+
+(* negative raw value; a marker the query lacks; a marker listed twice *)
+Example c07_example_rejections :
+  prepare_query frac fnorm [10; 20; 30] (DeclRaw [[1; -1; 2]]) [[30; 10]; [20]] = Err ENegative /\
+  prepare_query frac fnorm [10; 20; 30] (DeclRaw [[1; 1; 2]]) [[30; 40]] = Err EUnknownGene /\
+  prepare_query frac fnorm [10; 20; 30] (DeclRaw [[1; 1; 2]]) [[30; 30]] = Err EDupSelected /\
+  prepare_query frac fnorm [10; 20; 10] (DeclRaw [[1; 1; 2]]) [[20]] = Err EDupGenes /\
+  prepare_query frac fnorm [10; 20; 30] (DeclRaw [[1; 1]]) [[20]] = Err EShape.
+Proof. vm_compute. repeat split; reflexivity. Qed.
